@@ -150,43 +150,51 @@ package ipfslog
 
 //@ func (*IPFSLog).Len
 //@   requires logInv(l)
+//@   acquires l.lock
 //@   replay racelog
 //@   lockrequires noLocksHeld()
 
 //@ func (*IPFSLog).RawHeads
 //@   requires logInv(l)
+//@   acquires l.lock
 //@   lockrequires noLocksHeld()
 //@   ensures result == l.heads
 
 //@ func (*IPFSLog).Get
 //@   requires logInv(l)
+//@   acquires l.lock
 //@   lockrequires noLocksHeld()
 //@   ensures result1 == has(om(l.Entries).values, str(c))
 //@   ensures result1 ==> result0 == om(l.Entries).values[str(c)]
 
 //@ func (*IPFSLog).Has
 //@   requires logInv(l)
+//@   acquires l.lock
 //@   lockrequires noLocksHeld()
 //@   ensures result == has(om(l.Entries).values, str(c))
 
 //@ func (*IPFSLog).GetEntries
 //@   requires logInv(l)
+//@   acquires l.lock
 //@   lockrequires noLocksHeld()
 //@   ensures [get-entries-returns-a-copy] isOM(result) && fresh(result) && fresh(om(result).values)
 //@   ensures forall k string :: has(om(result).values, k) == has(om(l.Entries).values, k) && (has(om(l.Entries).values, k) ==> om(result).values[k] == om(l.Entries).values[k])
 
 //@ func (*IPFSLog).Heads
 //@   requires logInv(l)
+//@   acquires l.lock
 //@   lockrequires noLocksHeld()
 //@   ensures [heads-returns-a-copy] validEntries(result) && fresh(result) && fresh(om(result).values)
 
 //@ func (*IPFSLog).Values
 //@   requires logInv(l)
+//@   acquires l.lock
 //@   lockrequires noLocksHeld()
 //@   ensures [values-returns-a-copy] validEntries(result) && fresh(result) && fresh(om(result).values)
 
 //@ func (*IPFSLog).ToSnapshot
 //@   requires logInv(l)
+//@   acquires l.lock
 //@   lockrequires noLocksHeld()
 //@   ensures result != nil && fresh(result)
 
@@ -198,6 +206,7 @@ package ipfslog
 
 //@ func (*IPFSLog).ToJSONLog
 //@   requires logInv(l)
+//@   acquires l.lock
 //@   lockrequires noLocksHeld()
 //@   ensures result != nil && fresh(result) && result.ID == l.ID && len(result.Heads) == len(om(l.heads).keys)
 //@   loop 0
